@@ -10,7 +10,7 @@
 //! entries" section is a `DefList` whose effective value at position i is the entry for i if
 //! one is listed and the default otherwise (no index is listed twice).
 
-use crate::exact::{q, qi, Poly, Q};
+use crate::exact::{q, qi, Poly};
 use crate::rng::Rng;
 
 pub const OBJ_KINDS: [char; 4] = ['L', 'D', 'C', 'Q'];
